@@ -1,12 +1,26 @@
 package log
 
 import (
+	"fmt"
 	"log/slog"
 	"time"
 )
 
 func ErrorAttr(err error) slog.Attr {
-	return ErrorStringAttr(err.Error())
+	return ErrorStringAttr(errorString(err))
+}
+
+// errorString returns err.Error(), also for error values whose Error method panics
+// (a nil pointer of a custom error type, for example): logging an error must never
+// take down the goroutine that reports it.
+func errorString(err error) (message string) {
+	defer func() {
+		if r := recover(); r != nil {
+			message = fmt.Sprintf("%T (Error method panicked: %v)", err, r)
+		}
+	}()
+
+	return err.Error()
 }
 
 func ErrorAnyAttr(err any) slog.Attr {
